@@ -85,9 +85,15 @@ def _scan(code, shared_names):
                 alias[nxt.argval] = "global"
             elif ins.opname == "LOAD_ATTR" and ins.argval in FIELDS and FIELDS[ins.argval] != "dict":
                 alias[nxt.argval] = "field"
-    prev = None
+    prev = prev2 = None
     for ins in ins_list:
-        if ins.opname in ("LOAD_ATTR", "STORE_ATTR") and ins.argval in FIELDS:
+        if ins.opname in ("LOAD_ATTR", "STORE_ATTR") and ins.argval == "point" and prev is not None:
+            # the key's reference to its point object: `self.point` (Public_key) / `self.pubkey.point` (VerifyingKey)
+            if prev.opname.startswith("LOAD_FAST"):
+                m[ins.offset] = ("PW" if ins.opname == "STORE_ATTR" else "PR", prev.argval, None)
+            elif prev.opname == "LOAD_ATTR" and prev.argval == "pubkey" and prev2 is not None and prev2.opname.startswith("LOAD_FAST"):
+                m[ins.offset] = ("PW" if ins.opname == "STORE_ATTR" else "PR", prev2.argval, "pubkey")
+        elif ins.opname in ("LOAD_ATTR", "STORE_ATTR") and ins.argval in FIELDS:
             recv = prev.argval if prev is not None and prev.opname.startswith("LOAD_FAST") else None
             if FIELDS[ins.argval] == "dict" and ins.opname == "STORE_ATTR":
                 recv = None
@@ -96,6 +102,7 @@ def _scan(code, shared_names):
             m[ins.offset] = ("G", ins.argval, None)
         elif ins.opname.startswith("LOAD_FAST") and ins.argval in alias:
             m[ins.offset] = ("A", ins.argval, alias[ins.argval])
+        prev2 = prev
         prev = ins
     return m
 
@@ -109,6 +116,16 @@ def _callback(code, offset):
         return None
     kind, recv, field = acc
     if recv is None:
+        return None
+    if kind in ("PR", "PW"):
+        vk = getattr(run, "vk", None)
+        if vk is None:
+            return None
+        obj = sys._getframe(1).f_locals.get(recv)
+        if field == "pubkey":
+            obj = getattr(obj, "pubkey", None)
+        if obj is vk.pubkey:
+            run.sched.yield_point((kind[1], "K", "point"))
         return None
     if kind == "G":
         run.sched.yield_point(("G", recv, offset))
@@ -274,7 +291,28 @@ class KeyScenario:
             raise RuntimeError("from_public_point copied the point")
         self.vk = vk
         self.sk = sk
+        from ecdsa import ecdsa as EC
+        self.h_int = 7
+        self.sig_obj = sk.privkey.sign(self.h_int, self.k)
+        self.Qc = Qc
         return [Q, G]
+
+    def curve_tokens(self):
+        return "%d %d %d" % (self.toy.p, self.toy.a, self.toy.b)
+
+    def obj_tokens(self):
+        """Q (the key's point), G (generator) as `make()` leaves them, and the object precompute() will publish: the
+        affine pair, generator flag set, no table"""
+        t = self.toy
+        objs = self.make()
+        ax, ay = affine_mul(t, self.d)
+        out = []
+        for o in objs:
+            c = o._PointJacobi__coords
+            out.append("%d,%d,%d,%d,%d,%s" % (c[0], c[1], c[2], t.n, 1 if o._PointJacobi__generator else 0,
+                                              "F" if o._PointJacobi__precompute else "E"))
+        out.append("%d,%d,1,%d,1,N" % (ax, ay, t.n))
+        return "|".join(out)
 
 
 def key_operations(scn):
@@ -298,7 +336,27 @@ def key_operations(scn):
         "k_sign": lambda o, vk: scn.sk.sign_digest(scn.dg, k=scn.k, allow_truncate=True),
         "k_sign2": lambda o, vk: scn.sk.sign_digest(b"\x09", k=7, allow_truncate=True),
         "k_compressed": lambda o, vk: vk.to_string("compressed"),
+        # the five modelled key-level functions, called directly (replayed step by step on the Lean model)
+        "kv": lambda o, vk: vk.pubkey.verifies(scn.h_int, scn.sig_obj),
+        "kv_bad": lambda o, vk: vk.pubkey.verifies(scn.h_int + 1, scn.sig_obj),
+        "ksn": lambda o, vk: (lambda sg: ("pair", sg.r, sg.s))(scn.sk.privkey.sign(scn.h_int, scn.k)),
+        "kraw": lambda o, vk: (lambda bs: ("pair", bs[0], bs[1]))(vk._raw_encode()),
+        "kcomp": lambda o, vk: (lambda bs: ("pair", bs[1], bs[0] - 2))(vk._compressed_encode()),
+        "kpre": lambda o, vk: vk.precompute(),
+        "kprel": lambda o, vk: vk.precompute(lazy=True),
     }
+
+
+def key_model_token(scn, name):
+    t = scn.toy
+    return {"kv": "key_verifies:0:1:%d:%d:%d" % (scn.h_int, scn.sig_obj.r, scn.sig_obj.s),
+            "kv_bad": "key_verifies:0:1:%d:%d:%d" % (scn.h_int + 1, scn.sig_obj.r, scn.sig_obj.s),
+            "ksn": "key_sign:1:%d:%d:%d" % (scn.h_int, scn.k, scn.d),
+            "kraw": "key_raw:0", "kcomp": "key_compressed:0",
+            "kpre": "key_precompute:0:2:0", "kprel": "key_precompute:0:2:1"}.get(name)
+
+
+KEY_MODEL_OPS = ["kv", "kv_bad", "ksn", "kraw", "kcomp", "kpre", "kprel"]
 
 
 KEY_OPS = ["k_precompute", "k_precompute_lazy", "k_verify", "k_to_string", "k_point_x", "k_point_mul", "k_pickle", "k_sign",
@@ -387,6 +445,20 @@ def shared_repr():
     return repr([c for _, _, c in SHARED_CONTAINERS]) if SHARED_CONTAINERS else ""
 
 
+def heap_of(run):
+    """cells of a run: the shared point objects and, for a key scenario, the key's reference"""
+    h = heap_str(run.objs)
+    vk = getattr(run, "vk", None)
+    if vk is not None:
+        tgt = vk.pubkey.point
+        k = run.ids.get(id(tgt))
+        if k is None:
+            k = run.publish(tgt)
+            h = heap_str(run.objs)
+        h += " k0->%s" % k
+    return h
+
+
 def heap_str(objs):
     out = []
     for o in objs:
@@ -411,6 +483,8 @@ def raw_result(res, objs, err):
     if isinstance(res, dict):
         c = res["_PointJacobi__coords"]
         return "s%d,%d,%d/%s" % (c[0], c[1], c[2], show_table(res["_PointJacobi__precompute"]))
+    if isinstance(res, tuple) and len(res) == 3 and res[0] == "pair":
+        return "p%d,%d" % (res[1], res[2])
     from props import _curve
     return _curve.raw(res)
 
@@ -489,7 +563,10 @@ class Exec(Run):
     def note_choice(self, j):
         """thread j is about to perform its pending access: record what it reads"""
         p = self.sched.pending[j]
-        if p is not None and p[0] == "R":
+        if p is not None and p[1] == "K":
+            if p[0] == "R":
+                self.reads[j].append(("K", id(self.vk.pubkey.point)))
+        elif p is not None and p[0] == "R":
             v = self.cell(p[1], p[2])
             self.reads[j].append((p[1], p[2], tuple(v) if p[2] == "coords" else len(v)))
         elif p is not None and p[0] == "G":
@@ -497,7 +574,7 @@ class Exec(Run):
 
     def key(self):
         s = self.sched
-        return (heap_str(self.objs), shared_repr(), tuple(s.pending), tuple(s.done), tuple(tuple(r) for r in self.reads))
+        return (heap_of(self), shared_repr(), tuple(s.pending), tuple(s.done), tuple(tuple(r) for r in self.reads))
 
     def runnable(self):
         return [i for i in range(len(self.fns)) if not self.sched.done[i]]
@@ -583,7 +660,7 @@ def explore(scn, opnames, max_runs=5000, preempt_bound=None, want_traces=False):
         info = {"heaps": [], "preempt": 0, "last": None, "fresh": False}
 
         def chooser(ex, i):
-            info["heaps"].append(heap_str(ex.objs))
+            info["heaps"].append(heap_of(ex))
             bad = good_heap(scn, ex.objs, good)
             if bad:
                 res["violation"] = {"schedule": list(ex.sched.choices), "observed": bad}
@@ -710,6 +787,12 @@ def _all_results(ctx):
             for b in ("x1", "y1", "mul1", "mul_add_qs"):
                 tasks.append((ti, "plain", (a, b), 400 if ctx.quick else 3000, None, True))
     for ti in toys:
+        for i, a in enumerate(KEY_MODEL_OPS):
+            for b in KEY_MODEL_OPS[i:]:
+                if a.startswith("kpre") and b.startswith("kpre"):
+                    continue      # two publications: the model's object ids are fixed in advance, compared by value only
+                tasks.append((ti, "key", (a, b), 400 if ctx.quick else 3000, None, True))
+    for ti in toys:
         for i, a in enumerate(KEY_OPS):
             for b in KEY_OPS[i:]:
                 tasks.append((ti, "key", (a, b), 400 if ctx.quick else 3000, None, False))
@@ -743,7 +826,16 @@ def correspond(ctx):
             ctx.problem("harness", "C18 exploration crashed", o["error"])
             continue
         ti, variant, opnames, _, _, want = o["arg"]
-        if not want or variant == "key":
+        if not want:
+            continue
+        if variant == "key":
+            kscn = KeyScenario(TOYS[ti])
+            kscn.make()
+            toks = [key_model_token(kscn, n) for n in opnames]
+            for (choices, heaps, raws) in o["traces"]:
+                lines.append("thr_trace_k %s %s 0 %s %s" % (kscn.curve_tokens(), kscn.obj_tokens(), "|".join(toks),
+                                                            ",".join(map(str, choices)) if choices else "-"))
+                meta.append((o["arg"], choices, "ok " + ";".join(heaps[:len(choices) + 1]) + " # " + "|".join(raws)))
             continue
         toks = [ops[n][1] for n in opnames]
         if any(t is None for t in toks):
